@@ -304,9 +304,11 @@ def loadCache (cd : Codecs) (cfg : Cfg) (db : Store) : Option (List Block) :=
     | none => some []
     | some last =>
       let H := last.hdr.height
+      -- the range is clamped to the genesis height (fix 105ed9f; it was clamped to 0 before)
+      let lo := max cfg.genesisHeight (H - cfg.maxCache)
       let lower : Option (List Block) :=
-        if H > 0 then
-          ((List.range (H - (H - cfg.maxCache))).map fun i => (H - cfg.maxCache) + i).mapM
+        if H > cfg.genesisHeight then
+          ((List.range (H - lo)).map fun i => lo + i).mapM
             (getBlockByHeight cd db)
         else some []
       match lower with
